@@ -180,6 +180,31 @@ type ProcNZ struct{ ProcN }
 
 func (*ProcNZ) LazyInit() {}
 
+// participants that carry the priority marker but have no Order(): they are not "ordered" at all
+// and belong with the unordered ones
+type RunM struct{ Part }
+
+func (r *RunM) Priority()  {}
+func (r *RunM) Run() error { return r.run("run") }
+
+type LoadM struct {
+	Part
+	Doc string
+}
+
+func (l *LoadM) Priority() {}
+func (l *LoadM) LoadConfig() ([]byte, error) {
+	return []byte(l.Doc), l.run("load")
+}
+
+type ProcM struct{ procBase }
+
+func (p *ProcM) Priority() {}
+
+type ElemM struct{ Part }
+
+func (e *ElemM) Priority() {}
+
 // Plain sortable elements for the direct check of the sorting helper.
 type ElemP struct{ Part }
 
